@@ -318,31 +318,21 @@ func (c *Ctx) pipeSaveName(save *core.FuncInfo) {
 		fi := cs.Caller
 		info := c.info(fi)
 		n++
-		nameObj := core.ObjOf(info, cs.Call.Args[1])
+		nameExpr := cs.Call.Args[1]
 		ok := false
 		why := "the name is not the result of the unique-name function"
-		// flow-sensitive: the definition that reaches the save (the last one before it), not just any definition
-		saveDef := c.reachingDef(fi, nameObj, cs.Call.Pos())
-		for _, d := range c.P.Locals(fi).Defs[nameObj] {
-			if d.Kind != core.DefMulti || d.Index != 0 {
-				continue
-			}
-			if saveDef != nil && d.Pos != saveDef.Pos {
-				continue
-			}
-			call, isCall := core.Unparen(d.Expr).(*ast.CallExpr)
-			if !isCall || len(call.Args) < 1 {
-				continue
-			}
-			callee := c.P.StaticCallee(fi, call)
-			if callee == nil || !c.isUniqifier(callee) {
-				continue
-			}
-			// first argument: <doc>.Definitions with <doc> the same expression as Save's first argument
-			if sel, isSel := core.Unparen(call.Args[0]).(*ast.SelectorExpr); isSel && sel.Sel.Name == "Definitions" && sameExpr(sel.X, cs.Call.Args[0]) {
-				ok = true
-			} else {
-				why = "the name was made unique against " + exprStr(call.Args[0]) + " but is saved into " + exprStr(cs.Call.Args[0])
+		// flow-sensitive: the definition of the name (a local, or a field of a local record) that reaches the save
+		saveDef := c.designatorDef(fi, nameExpr, cs.Call.Pos())
+		if saveDef != nil && saveDef.index == 0 {
+			if call, isCall := core.Unparen(saveDef.rhs).(*ast.CallExpr); isCall && len(call.Args) >= 1 {
+				if callee := c.P.StaticCallee(fi, call); callee != nil && c.isUniqifier(callee) {
+					// first argument: <doc>.Definitions with <doc> the same expression as Save's first argument
+					if sel, isSel := core.Unparen(call.Args[0]).(*ast.SelectorExpr); isSel && sel.Sel.Name == "Definitions" && sameExpr(sel.X, cs.Call.Args[0]) {
+						ok = true
+					} else {
+						why = "the name was made unique against " + exprStr(call.Args[0]) + " but is saved into " + exprStr(cs.Call.Args[0])
+					}
+				}
 			}
 		}
 		c.S.Decide(ok, "C03", "PIPE-SAVE-NAME", fi.QName(), c.P.Pos(cs.Call.Pos()),
@@ -369,10 +359,10 @@ func (c *Ctx) pipeSaveName(save *core.FuncInfo) {
 			if fv := core.FieldOf(info, sel); fv == nil || fv.Pkg() == nil || fv.Pkg().Path() != core.ModPath {
 				return true
 			}
-			same := core.ObjOf(info, as.Rhs[0]) != nil && core.ObjOf(info, as.Rhs[0]) == nameObj
+			// the same designator, and the same value: the definition reaching the memo is the one reaching the save
+			same := sameExpr(as.Rhs[0], nameExpr)
 			if same && saveDef != nil {
-				// the same variable, and the same value: no other definition of it lies between the two uses
-				if md := c.reachingDef(fi, nameObj, as.Pos()); md == nil || md.Pos != saveDef.Pos {
+				if md := c.designatorDef(fi, as.Rhs[0], as.Pos()); md == nil || md.pos != saveDef.pos {
 					same = false
 				}
 			}
@@ -385,6 +375,63 @@ func (c *Ctx) pipeSaveName(save *core.FuncInfo) {
 	if n < 2 {
 		c.S.Undecided("C03", "PIPE-SAVE-NAME", "floor", "-", fmt.Sprintf("%d callers of schutils.Save (expected 2)", n))
 	}
+}
+
+// desDef is one definition of a name designator: a local variable, or a field of a local record (x.name).
+type desDef struct {
+	pos   token.Pos
+	rhs   ast.Expr
+	index int // result index when the right-hand side is a multi-valued call
+}
+
+// designatorDef: the last definition of the designator before a position, in source order.
+func (c *Ctx) designatorDef(fi *core.FuncInfo, e ast.Expr, before token.Pos) *desDef {
+	info := c.info(fi)
+	e = core.Unparen(e)
+	var best *desDef
+	consider := func(d desDef) {
+		if d.pos < before && (best == nil || d.pos > best.pos) {
+			dd := d
+			best = &dd
+		}
+	}
+	ast.Inspect(fi.Decl.Body, func(n ast.Node) bool {
+		switch x := n.(type) {
+		case *ast.AssignStmt:
+			for i, l := range x.Lhs {
+				match := sameExpr(l, e)
+				if id, isID := e.(*ast.Ident); isID {
+					match = core.ObjOf(info, l) == core.ObjOf(info, id) && core.ObjOf(info, id) != nil
+				}
+				if !match {
+					continue
+				}
+				if len(x.Lhs) == len(x.Rhs) {
+					consider(desDef{x.Pos(), x.Rhs[i], 0})
+				} else if len(x.Rhs) == 1 {
+					consider(desDef{x.Pos(), x.Rhs[0], i})
+				}
+			}
+			// x := T{name: v}: the field of a record initialised by a literal
+			if sel, isSel := e.(*ast.SelectorExpr); isSel && len(x.Lhs) == len(x.Rhs) {
+				for i, l := range x.Lhs {
+					if core.ObjOf(info, l) != nil && core.ObjOf(info, l) == core.ObjOf(info, sel.X) {
+						if cl, ok := core.Unparen(x.Rhs[i]).(*ast.CompositeLit); ok {
+							for _, el := range cl.Elts {
+								if kv, ok := el.(*ast.KeyValueExpr); ok {
+									if id, ok := kv.Key.(*ast.Ident); ok && id.Name == sel.Sel.Name {
+										consider(desDef{x.Pos(), kv.Value, 0})
+									}
+								}
+							}
+						}
+					}
+				}
+			}
+		}
+		return true
+	})
+	return best
 }
 
 // reachingDef: the last definition of a local before a position, in source order (straight-line approximation:
